@@ -84,6 +84,7 @@ INFO = {
     "C02-4": ("UnboundedSPSCQueue::empty() looks only one buffer ahead (true when the direct successor is unused)", "chain drained -> never written -> holds records (two re-allocations in a row), emptiness asked before the next read pass (stop, exit, ManualBackendWorker::poll)"),
     "C13-4": ("incremental update skips rewriting hh:mm when the minute of the day equals a remembered one that cache rebuilds do not reset", "GMT mode: incremental update at minute X, rebuild(s) at another hh:mm, then the first incremental update in minute X again"),
     "C15-4": ("_file_size = 0 moved from _rotate_files() into _size_rotation(): a time rotation no longer resets the byte count", "size AND time rotation: the file opened by a time rotation inherits the rotated file's size and is size-rotated early"),
+    "C11-4": ("hard-limit test with an early 'return' in the backend read loop skips commit_read() (same change as C09-4, found independently for C11)", "small transit_events_hard_limit, a burst that is a multiple of it drained by the backend, then a statement that needs the unpublished bytes: the queue grows on the caller"),
     "C17-2": ("SinkManager::_insert_sink uses upper_bound", "a sink expires without a logger removal, the same sink name is created again and looked up before any logger is removed"),
 }
 for name, (change, needs) in INFO.items():
